@@ -50,3 +50,91 @@ Proof.
   destruct (decode_encode name _ _ w Hb He) as (Hw & ops & i & H1 & H2 & H3).
   eexists. exists ops, i. split. apply r_line_parses; eauto. split. apply r_item_assembles; exact He. auto.
 Qed.
+
+(* ---- the other 32-bit classes with a LITERAL immediate --------------------------------------------------------------------- *)
+Ltac nav Hrd :=
+  unfold parse_item; cbn [List.length Nat.eqb Nat.leb andb nth_tok nth_error tok_is]; rewrite ?Hrd;
+  match goal with |- context[lower ?h] => let v := eval vm_compute in (lower h) in change (lower h) with v end;
+  cbv beta iota zeta;
+  repeat match goal with
+         | |- context[in_tab ?x ?y] => let v := eval vm_compute in (in_tab x y) in change (in_tab x y) with v
+         | |- context[mem_str ?x ?y] => let v := eval vm_compute in (mem_str x y) in change (mem_str x y) with v
+         | |- context[String.eqb (String ?c ?x) (String ?d ?y)] =>
+             let v := eval vm_compute in (String.eqb (String c x) (String d y)) in change (String.eqb (String c x) (String d y)) with v
+         end;
+  cbv beta iota.
+
+Lemma i_item_assembles l name rd rs1 v w :
+  encode name [AStr rd; AStr rs1; AInt v] [] = Ok w ->
+  assemble_items [(l, IInstr "ITypeInstruction" name [("rd", R rd); ("rs1", R rs1); ("imm", FExpr (EArith (ANum v))); ("is_auipc_jump", FBool false)] false)] [] [] false =
+  Done {| r_chunks := [(l, CBytes (le_bytes 4 w))]; r_consts := []; r_labels := [] |}.
+Proof. intro H. unfold assemble_items. cbn. unfold encode_item. cbn. rewrite H. reflexivity. Qed.
+Lemma s_item_assembles l name rs1 rs2 v w :
+  encode name [AStr rs1; AStr rs2; AInt v] [] = Ok w ->
+  assemble_items [(l, IInstr "STypeInstruction" name [("rs1", R rs1); ("rs2", R rs2); ("imm", FExpr (EArith (ANum v)))] false)] [] [] false =
+  Done {| r_chunks := [(l, CBytes (le_bytes 4 w))]; r_consts := []; r_labels := [] |}.
+Proof. intro H. unfold assemble_items. cbn. unfold encode_item. cbn. rewrite H. reflexivity. Qed.
+Lemma u_item_assembles l name rd v w :
+  encode name [AStr rd; AInt v] [] = Ok w ->
+  assemble_items [(l, IInstr "UTypeInstruction" name [("rd", R rd); ("imm", FExpr (EArith (ANum v)))] false)] [] [] false =
+  Done {| r_chunks := [(l, CBytes (le_bytes 4 w))]; r_consts := []; r_labels := [] |}.
+Proof. intro H. unfold assemble_items. cbn. unfold encode_item. cbn. rewrite H. reflexivity. Qed.
+
+Definition i_names : list string := map fst I_TYPE_INSTRUCTIONS_final.
+Definition s_names : list string := map fst S_TYPE_INSTRUCTIONS_final.
+Definition u_names : list string := map fst U_TYPE_INSTRUCTIONS_final.
+
+Lemma i_line_parses l name rd rs1 tok v :
+  In name i_names -> String.eqb rd "=" = false -> String.eqb tok "(" = false ->
+  parse_immediate [tok] l = FOk (EArith (ANum v)) ->
+  parse_item l [name; rd; rs1; tok] =
+  FOk (IInstr "ITypeInstruction" name [("rd", R rd); ("rs1", R rs1); ("imm", FExpr (EArith (ANum v))); ("is_auipc_jump", FBool false)] false).
+Proof.
+  intros Hn Hrd Htok Hp. unfold i_names in Hn. vm_compute in Hn.
+  repeat (destruct Hn as [<-|Hn]; [nav Hrd; unfold base_offset; cbn [nth_tok nth_error tok_is andb]; rewrite ?Htok; rewrite ?andb_false_r;
+                                   cbv beta iota; cbn [fbind]; rewrite Hp; reflexivity|]).
+  contradiction.
+Qed.
+Lemma s_line_parses l name rs1 rs2 tok v :
+  In name s_names -> String.eqb rs1 "=" = false -> String.eqb tok "(" = false ->
+  parse_immediate [tok] l = FOk (EArith (ANum v)) ->
+  parse_item l [name; rs1; rs2; tok] =
+  FOk (IInstr "STypeInstruction" name [("rs1", R rs1); ("rs2", R rs2); ("imm", FExpr (EArith (ANum v)))] false).
+Proof.
+  intros Hn Hrd Htok Hp. unfold s_names in Hn. vm_compute in Hn.
+  repeat (destruct Hn as [<-|Hn]; [nav Hrd; cbn [nth_tok nth_error tok_is]; rewrite ?Htok; cbv beta iota; cbn [fbind]; rewrite Hp; reflexivity|]).
+  contradiction.
+Qed.
+Lemma u_line_parses l name rd tok v :
+  In name u_names -> String.eqb rd "=" = false -> parse_immediate [tok] l = FOk (EArith (ANum v)) ->
+  parse_item l [name; rd; tok] = FOk (IInstr "UTypeInstruction" name [("rd", R rd); ("imm", FExpr (EArith (ANum v)))] false).
+Proof.
+  intros Hn Hrd Hp. unfold u_names in Hn. vm_compute in Hn.
+  repeat (destruct Hn as [<-|Hn]; [nav Hrd; cbn [fbind]; rewrite Hp; reflexivity|]).
+  contradiction.
+Qed.
+
+(* loads, addi .. andi, jalr, csr instructions, stores, lui / auipc: a line with a literal immediate, end to end *)
+Theorem imm_line_end_to_end l name toks it args w :
+  (exists rd rs1 tok v, In name i_names /\ String.eqb rd "=" = false /\ String.eqb tok "(" = false /\
+       parse_immediate [tok] l = FOk (EArith (ANum v)) /\ toks = [name; rd; rs1; tok] /\ args = [AStr rd; AStr rs1; AInt v] /\
+       it = IInstr "ITypeInstruction" name [("rd", R rd); ("rs1", R rs1); ("imm", FExpr (EArith (ANum v))); ("is_auipc_jump", FBool false)] false) \/
+  (exists rs1 rs2 tok v, In name s_names /\ String.eqb rs1 "=" = false /\ String.eqb tok "(" = false /\
+       parse_immediate [tok] l = FOk (EArith (ANum v)) /\ toks = [name; rs1; rs2; tok] /\ args = [AStr rs1; AStr rs2; AInt v] /\
+       it = IInstr "STypeInstruction" name [("rs1", R rs1); ("rs2", R rs2); ("imm", FExpr (EArith (ANum v)))] false) \/
+  (exists rd tok v, In name u_names /\ String.eqb rd "=" = false /\
+       parse_immediate [tok] l = FOk (EArith (ANum v)) /\ toks = [name; rd; tok] /\ args = [AStr rd; AInt v] /\
+       it = IInstr "UTypeInstruction" name [("rd", R rd); ("imm", FExpr (EArith (ANum v)))] false) ->
+  In name base_mnemonics -> encode name args [] = Ok w ->
+  exists ops i,
+    parse_item l toks = FOk it /\
+    assemble_items [(l, it)] [] [] false = Done {| r_chunks := [(l, CBytes (le_bytes 4 w))]; r_consts := []; r_labels := [] |} /\
+    (0 <= w < 2 ^ 32)%Z /\ operands32 name args [] = Some ops /\ denote32 name ops = Some i /\ decode32 w = Some i.
+Proof.
+  intros Hc Hb He. destruct (decode_encode name _ _ w Hb He) as (Hw & ops & i & H1 & H2 & H3). exists ops, i.
+  destruct Hc as [(rd & rs1 & tok & v & Hn & Hrd & Ht & Hp & -> & -> & ->)|[(rs1 & rs2 & tok & v & Hn & Hrd & Ht & Hp & -> & -> & ->)|
+                  (rd & tok & v & Hn & Hrd & Hp & -> & -> & ->)]].
+  - split. apply i_line_parses; auto. split. apply i_item_assembles; exact He. auto.
+  - split. apply s_line_parses; auto. split. apply s_item_assembles; exact He. auto.
+  - split. apply u_line_parses; auto. split. apply u_item_assembles; exact He. auto.
+Qed.
